@@ -462,6 +462,13 @@ func histOp(r *hx.Rng, order string, elem *Ty, n int) string {
 
 var histOrders = []string{"PTpt", "TPpt", "ptPT", "tpTP", "PpTt", "TtPp", "pTtP", "tPpT"}
 
+// wellFormedItem: enc is exactly one RLP item, nested items included (checked with the package's own
+// limited decoder: it is only a filter for what may be fed to an unlimited stream)
+func wellFormedItem(enc []byte) bool {
+	var v interface{}
+	return rlp.DecodeBytes(enc, &v) == nil
+}
+
 func genApiSession(r *hx.Rng) string {
 	var steps []string
 	open := []string{}
@@ -482,7 +489,10 @@ func genApiSession(r *hx.Rng) string {
 		case 14:
 			t, v := smallTyVal(r)
 			ty, _ := tyOf(t)
-			if enc, ok := encodeText(ty, v); ok && len(enc) < 400 && len(enc) > 0 {
+			// the reader of `rf` is not a bytes.Reader, so the Stream has NO input limit and allocates what a
+			// header declares (documented; outside the property's "declared input"): only encodings that are
+			// one well-formed item go there (a RawValue field may hold arbitrary bytes, e.g. `bb7fffffff`)
+			if enc, ok := encodeText(ty, v); ok && len(enc) < 400 && len(enc) > 0 && wellFormedItem(enc) {
 				n := len(enc)
 				k := r.Pick(0, 1, 2, n/2, n-1, n, n+1)
 				enc = append(enc, r.Bytes(r.Intn(3))...)
